@@ -1,5 +1,6 @@
 // Scenario steps on the adaptive Huffman tree and the LZH decompressor (C15, C04).
 #include "ops.hpp"
+#include <random>
 // ---- adaptive Huffman tree (C15) -------------------------------------------------------------------------
 static json huff_shape(Archive::AdaptiveHuffmanTree& t, unsigned n, int depth = 0) { if (depth > 700) throw std::logic_error("cycle"); if (t.IsLeaf(n)) return t.GetNodeData(n); return json::array({huff_shape(t, t.GetChildNode(n, false), depth + 1), huff_shape(t, t.GetChildNode(n, true), depth + 1)}); }
 // decoder walk driven by the bit string the *encoder* reports (LSB = branch taken at the root)
@@ -31,5 +32,35 @@ bool ops_codec(Ctx& c, const json& s, int idx, bool& handled) {
 		for (int guard = 0; got.size() < want.size() && guard < 100000; ++guard) if (!call("data", 4096)) return false;
 		if (!call("data", 7)) return false;                                              // at the end: nothing more, ever
 		{ std::size_t c = 1; z.GetInternalBuffer(&c); if (c != 0) { Proto::mismatch(site + "/GetInternalBuffer", "count", where("data after the end")); return false; } }
+		return true; }
+	// ---- C04: long inputs, decoded by the specification's state machine (spec/LzhMachine.tla); output compared by length + checksum ----
+	if (op == "lzh_long") { const std::string kind = s["kind"]; std::size_t len = s["len"]; std::vector<unsigned char> in(len);
+		for (std::size_t i = 1; i <= len; ++i) in[i - 1] = (unsigned char)(kind == "zero" ? 0 : kind == "ff" ? 255 : kind == "aa" ? 170 : kind == "lcg" ? ((i * 1103 + (i / 7) * 12345 + 7) / 3) % 256 : (i * 37) % 256);
+		const unsigned long long wantLen = s["outLen"]; const bool wantErr = s["err"]; unsigned long a = 1, b = 0; unsigned long long n = 0; bool err = false; alarm(300);
+		Archive::HuffLZ z(Archive::BitStreamReader(in.data(), in.size())); std::vector<char> buf(5000); std::mt19937_64 rng(Proto::g_seed + len);
+		auto fold = [&](const char* p, std::size_t c) { for (std::size_t i = 0; i < c; ++i) { a = (a + (unsigned char)p[i]) % 65521; b = (b + a) % 65521; } n += c; };
+		try { for (;;) { std::size_t c = 0; if (rng() % 3 == 0) { const char* p = z.GetInternalBuffer(&c); fold(p, c); if (c == 0) break; } else { std::size_t want = 1 + rng() % 4999; c = z.GetData(buf.data(), want); fold(buf.data(), c); if (c < want) break; } if (n > wantLen + 100000) break; } }
+		catch (const std::exception&) { err = true; }
+		auto note = [&] { return where(kind + "[" + std::to_string(len) + "] delivered " + std::to_string(n) + " bytes, want " + std::to_string(wantLen) + (wantErr ? " then an error" : "")); };
+		if (err != wantErr) { Proto::mismatch(site, err ? "refused-should-accept" : "accepted-should-refuse", note()); return false; }
+		if (!err && (n != wantLen || a != s["a"].get<unsigned long>() || b != s["b"].get<unsigned long>())) { Proto::mismatch(site, "bytes", note()); return false; }
+		if (err && n > wantLen) { Proto::mismatch(site, "bytes-beyond-capacity", note()); return false; }      // what was delivered before the error is a prefix of the reference output
+		return true; }
+	// ---- C04: a run of `count` equal literals, encoded with the real tree, across the capacity of the tree's counters ---------------
+	if (op == "lzh_literal_run") { const unsigned sym = s["sym"]; const std::size_t count = s["count"]; alarm(120); std::size_t padCodes = 0;
+		std::vector<unsigned char> in; unsigned acc = 0; int nb = 0; { Archive::AdaptiveHuffmanTree enc(314);
+			for (std::size_t k = 0; k < count; ++k) { unsigned bc = 0; unsigned bits = enc.GetEncodedBitString((unsigned short)sym, bc); for (unsigned i = 0; i < bc; ++i) { acc = (acc << 1) | ((bits >> i) & 1); if (++nb == 8) { in.push_back((unsigned char)acc); acc = 0; nb = 0; } }
+				try { enc.UpdateCodeCount((unsigned short)sym); } catch (const std::exception&) { /* the encoder side hits the same capacity; the remaining codes keep the last path */ } }
+			// pad the last byte with the bits of this symbol's own code so that the padding decodes to the same literal (or ends the stream)
+			unsigned bc = 0; unsigned bits = enc.GetEncodedBitString((unsigned short)sym, bc);
+			if (bc != 1) { Proto::mismatch(site, "harness-assumption", where("the literal's code is not one bit long at the end of the run")); return false; }
+			while (nb != 0) { acc = (acc << 1) | (bits & 1); ++padCodes; if (++nb == 8) { in.push_back((unsigned char)acc); nb = 0; } } }
+		const std::size_t wantDelivered = s["outcomes"][padCodes]["delivered"]; const bool wantErr = s["outcomes"][padCodes]["err"];
+		Archive::HuffLZ z(Archive::BitStreamReader(in.data(), in.size())); std::vector<char> buf(4096); std::size_t n = 0; bool err = false, wrongByte = false;
+		try { for (;;) { std::size_t c = z.GetData(buf.data(), 4096); for (std::size_t i = 0; i < c; ++i) if ((unsigned char)buf[i] != sym && n + i < wantDelivered) wrongByte = true; n += c; if (c < 4096) break; } } catch (const std::exception&) { err = true; }
+		auto note = [&] { return where("symbol " + std::to_string(sym) + " x " + std::to_string(count) + ": delivered " + std::to_string(n) + (err ? " then an error" : " without error")); };
+		if (wrongByte) { Proto::mismatch(site, "bytes", note()); return false; }
+		if (err != wantErr) { Proto::mismatch(site, err ? "refused-should-accept" : "accepted-should-refuse", note()); return false; }
+		if (wantErr ? n > wantDelivered : n < wantDelivered) { Proto::mismatch(site, "count", note()); return false; }
 		return true; }
 	OPS_EPILOGUE }
